@@ -182,3 +182,115 @@ Definition chk_table_keys (c : list (pystr * centry) * list pystr) : bool :=
   let '(conf, keys) := c in
   let ks := map fst (minter_table conf) in
   Nat.eqb (length ks) (length keys) && forallb (fun p => str_eqb (fst p) (snd p)) (combine ks keys).
+
+(* ==== where the salt of PublicID / PairWiseID comes from, over the life of a deployment ====
+   PairWiseID.__init__(salt="", filename="") (PublicID inherits it):
+       if salt:                      self.salt = salt
+       elif filename:
+           if os.path.isfile(filename):   self.salt = open(filename).read()                     -- READ
+           elif os.path.exists(filename): raise ConfigurationError                              -- not a file
+           else: self.salt = rndstr(24); fp = open(filename, "w"); fp.write(self.salt)           -- CREATE
+       else:                          self.salt = rndstr(24)
+   The file system is an association list file name -> state (a name that is not listed does not exist).  A file's content is
+   its decoded text BEFORE the newline translation of Python's text mode; open(..).read() translates "\r\n" and a lone "\r"
+   to "\n" (universal newlines) and strips nothing; fp.write(text) of a file opened with "w" stores the text as it is
+   ("\n" -> os.linesep = "\n" on POSIX). *)
+Fixpoint read_text (raw : pystr) : pystr :=
+  match raw with
+  | [] => []
+  | c :: r =>
+      if (c =? 13)%N
+      then 10%N :: match r with
+                   | d :: r' => if (d =? 10)%N then read_text r' else read_text r
+                   | [] => []
+                   end
+      else c :: read_text r
+  end.
+Definition write_text (text : pystr) : pystr := text.
+
+Inductive fstate := FFile (raw : pystr) | FOther.            (* a regular file with this content | a directory, ... *)
+Definition fsys := list (pystr * fstate).
+
+Inductive salt_source := SrcExplicit (s : pystr) | SrcFile (fname : pystr) | SrcNone.
+Definition source_of (salt filename : pystr) : salt_source :=
+  match salt with
+  | _ :: _ => SrcExplicit salt
+  | [] => match filename with _ :: _ => SrcFile filename | [] => SrcNone end
+  end.
+
+Inductive init_result := InitOk (salt : pystr) (fs : fsys) | InitConfigurationError.
+(* the salt an instance gets from its source, given the files it finds and its own random draw; and the files it leaves *)
+Definition salt_of (src : salt_source) (fs : fsys) (rnd : pystr) : init_result :=
+  match src with
+  | SrcExplicit s => InitOk s fs
+  | SrcFile f =>
+      match assoc f fs with
+      | Some (FFile raw) => InitOk (read_text raw) fs                       (* READ *)
+      | Some FOther => InitConfigurationError
+      | None => InitOk rnd (aset f (FFile (write_text rnd)) fs)              (* CREATE *)
+      end
+  | SrcNone => InitOk rnd fs
+  end.
+
+(* a deployment's session_params.sub_func: library classes described by their constructor arguments, everything else as before *)
+Inductive dentry := DClass (pairwise : bool) (salt filename : pystr) | DPlain (e : centry).
+Definition class_minter (pairwise : bool) (salt : pystr) : minter := if pairwise then cls_PairWiseID salt else cls_PublicID salt.
+
+(* start-up of one provider instance (do_sub_func constructs the entries in dict order): the configuration the instance
+   works with - in the terms of the sections above - and the files afterwards; None: the start-up fails.  rnd i is the
+   random draw available to the i-th entry *)
+Fixpoint start_up (d : list (pystr * dentry)) (i : nat) (rnd : nat -> pystr) (fs : fsys) : option (list (pystr * centry) * fsys) :=
+  match d with
+  | [] => Some ([], fs)
+  | (k, DPlain e) :: r =>
+      match start_up r (S i) rnd fs with Some (c, fs') => Some ((k, e) :: c, fs') | None => None end
+  | (k, DClass pw salt fn) :: r =>
+      match salt_of (source_of salt fn) fs (rnd i) with
+      | InitOk s fs1 =>
+          match start_up r (S i) rnd fs1 with Some (c, fs') => Some ((k, EMinter (class_minter pw s)) :: c, fs') | None => None end
+      | InitConfigurationError => None
+      end
+  end.
+
+(* every class entry has a salt that outlives the instance (given, or kept in a file) *)
+Fixpoint persistent (d : list (pystr * dentry)) : bool :=
+  match d with
+  | [] => true
+  | (_, DPlain _) :: r => persistent r
+  | (_, DClass _ salt fn) :: r => match source_of salt fn with SrcNone => false | _ => persistent r end
+  end.
+
+(* ---- correspondence for the life cycle ---- *)
+Definition fstate_eqb (a b : fstate) : bool :=
+  match a, b with FFile x, FFile y => str_eqb x y | FOther, FOther => true | _, _ => false end.
+Definition rnd_of (rnds : list pystr) (i : nat) : pystr := nth i rnds [].
+(* case: the configuration, the draws, the files before the instance started, and what was seen afterwards: None = the
+   start-up raised ConfigurationError, Some l = it succeeded and l lists the state of every file the configuration names
+   (None = does not exist) *)
+Definition start_case := (list (pystr * dentry) * list pystr * fsys * option (list (pystr * option fstate)))%type.
+Definition chk_start (c : start_case) : bool :=
+  let '(d, rnds, fs, observed) := c in
+  match start_up d O (rnd_of rnds) fs, observed with
+  | None, None => true
+  | Some (_, fs'), Some l =>
+      forallb (fun p => match assoc (fst p) fs', snd p with
+                        | Some a, Some b => fstate_eqb a b
+                        | None, None => true
+                        | _, _ => false
+                        end) l
+  | _, _ => false
+  end.
+(* case: hash table, host table, configuration, draws, files before the instance started, client record, redirect_uri, uid,
+   session salt, observed sub of a login at that instance (None: a fresh-value minter serves the client's type) *)
+Definition life_case := (list (pystr * pystr) * list (pystr * pystr) * list (pystr * dentry) * list pystr * fsys * creg * pystr * pystr * pystr * option pystr)%type.
+Definition chk_life (c : life_case) : bool :=
+  let '(ht, hosts, d, rnds, fs, r, redirect, uid, salt, observed) := c in
+  match start_up d O (rnd_of rnds) fs with
+  | None => false
+  | Some (conf, _) =>
+      match grant_sub_conf (table_hash ht) (table_host hosts) conf r redirect uid salt O, observed with
+      | SHash dg, Some o => str_eqb dg o
+      | SFresh _, None => true
+      | _, _ => false
+      end
+  end.
